@@ -129,3 +129,6 @@ impl std::error::Error for Error {
         Some(self.reason())
     }
 }
+
+#[cfg(kani)]
+include!(concat!(env!("ASSETS_MANAGER_VERIF"), "/incrate/error.rs"));
